@@ -7,3 +7,5 @@ extern crate alloc;
 
 #[cfg(kani)]
 pub mod c19;
+#[cfg(kani)]
+pub mod c12;
